@@ -320,14 +320,22 @@ Example tx_linked :
      = ([[0%float; 1.5%float; 0%float]; [2%float; 3%float; 4%float]], None).
 Proof. split; vm_compute; reflexivity. Qed.
 
-(* ---------------- reindex(range(5)) of the three-period model after period 1 was traced (tx_tr1): periods 0..2 keep
-   the SAME Trace objects, periods 3 and 4 hold None; tracing period 3 raises AttributeError; tracing period 1 again
-   through the reindexed instance appends to the object the original still holds *)
+(* ---------------- reindex(range(5)) of the three-period model after period 1 was traced (tx_tr1): since fix 28b2a9a
+   periods 0..2 get Trace objects of their own (addresses 3, 4, 5: copies), periods 3 and 4 hold None; tracing period 3
+   raises AttributeError; tracing period 1 again through the reindexed instance leaves the original's Trace (object 1)
+   alone.  Before the fix the cells were the original's references and object 1 grew. *)
 Definition tx_cells : list tcell := [Some 0%nat; Some 1%nat; Some 2%nat].
 Definition tx_positions : list (option nat) := [Some 0%nat; Some 1%nat; Some 2%nat; None; None].
 Example tx_reindex :
-  reindex_cells tx_positions tx_cells = [Some 0%nat; Some 1%nat; Some 2%nat; None; None]
-  /\ snd (trace_t_cells float [0%nat] false 3%nat LStart [2.5%float] (reindex_cells tx_positions tx_cells) tx_tr1) = Some AttributeError
-  /\ (let '((_, h'), e) := trace_t_cells float [0%nat] false 1%nat LStart [2.5%float] (reindex_cells tx_positions tx_cells) tx_tr1 in
+  fst (reindex_cells float tx_positions tx_cells tx_tr1) = [Some 3%nat; Some 4%nat; Some 5%nat; None; None]
+  /\ (let '(cs, h1) := reindex_cells float tx_positions tx_cells tx_tr1 in
+      snd (trace_t_cells float [0%nat] false 3%nat LStart [2.5%float] cs h1) = Some AttributeError
+      /\ (let '((_, h'), e) := trace_t_cells float [0%nat] false 1%nat LStart [2.5%float] cs h1 in
+          e = None /\ length (tr_index (tderef float h' 4%nat)) = 8%nat /\ tderef float h' 1%nat = tderef float tx_tr1 1%nat)).
+Proof. split; [vm_compute; reflexivity|]. vm_compute. repeat split; reflexivity. Qed.
+
+Example tx_reindex_before_the_fix :
+  reindex_cells_shared tx_positions tx_cells = [Some 0%nat; Some 1%nat; Some 2%nat; None; None]
+  /\ (let '((_, h'), e) := trace_t_cells float [0%nat] false 1%nat LStart [2.5%float] (reindex_cells_shared tx_positions tx_cells) tx_tr1 in
       e = None /\ length (tr_index (tderef float h' 1%nat)) = 8%nat /\ length (tr_index (tderef float tx_tr1 1%nat)) = 7%nat).
-Proof. split; [reflexivity|]. split; vm_compute; repeat split; reflexivity. Qed.
+Proof. split; [reflexivity|]. vm_compute. repeat split; reflexivity. Qed.
